@@ -67,13 +67,10 @@ pub fn def(ctx: &Ctx) -> PropertyDef {
     let mut scenarios: Vec<Scenario> = Vec::new();
     for fair in [false, true] {
         for p in programs(fair) {
-            scenarios.push(program_scenario(p, oracle(), move |_c| IlvCfg {
-                bounds: if quick { vec![0, 1] } else { vec![0, 1, 2] },
-                workers,
-                split_depth: 6,
-                time_cap_s: Some(if quick { 4.0 } else { 300.0 }),
-                max_executions: None,
-            }));
+            scenarios.push({
+                let nthreads = p.threads.len();
+                program_scenario(p, oracle(), move |c| crate::harness::ilv::tier_cfg(c, nthreads))
+            });
         }
     }
     let mut assumptions = COMMON_ASSUMPTIONS.to_vec();
